@@ -516,6 +516,15 @@ Example c46_nonvacuous :
   /\ check_case (mk 99 [Some 2; Some 0; Some 3] [Some [1;2]; Some []; Some [3;4;5]] 1 3 (ORead 99 (ROk [2;3;4]))) = 3%nat.
 Proof. vm_compute. repeat split. Qed.
 
+(* load error on the second blob of a read that already copied from the first: only an error is right *)
+Example c46_load_error_clause :
+  check_case (mk 5 [Some 2; Some 3] [Some [1;2]; None] 1 3 (ORead 5 RErr)) = 0%nat
+  /\ check_case (mk 5 [Some 2; Some 3] [Some [1;2]; None] 1 3 (ORead 5 (ROk [2]))) = 2%nat
+  /\ check_case (mk 5 [Some 2; Some 3] [Some [1;2]; None] 0 2 (ORead 5 (ROk [1;2]))) = 0%nat
+  /\ range_opt [2; 3] [Some [1;2]; None] 1 3 = None
+  /\ range_opt [2; 0; 3] [Some [1;2]; Some []; Some [3;4;5]] 1 3 = Some [2;3;4].
+Proof. vm_compute. repeat split. Qed.
+
 Definition ex_repo (id : nat) : bytes := [N.of_nat id * 10; N.of_nat id * 10 + 1].
 Definition ex_open := mkOpened 6 [0; 2; 4; 6].
 Example c46_concurrent_nonvacuous :
